@@ -15,8 +15,10 @@ Section val_ind_nested.
   Hypothesis HNaN : forall i, P (VNaN i).
   Hypothesis HStr : forall s, P (VStr s).
   Hypothesis HDate : forall u, P (VDate u).
+  Hypothesis HFlt : forall m e, P (VFlt m e).
   Hypothesis HTuple : forall l, Forall P l -> P (VTuple l).
   Hypothesis HList : forall l, Forall P l -> P (VList l).
+  Hypothesis HSeq : forall c l, Forall P l -> P (VSeq c l).
   Hypothesis HDict : forall c items, Forall (fun kv => P (snd kv)) items -> P (VDict c items).
   Hypothesis HArr : forall sh c, Forall P c -> P (VArr sh c).
   Hypothesis HSeries : forall ix c, Forall P ix -> Forall P c -> P (VSeries ix c).
@@ -27,9 +29,10 @@ Section val_ind_nested.
       match l with [] => Forall_nil _ | a :: t => Forall_cons a (val_ind' a) (go t) end in
     match v with
     | VNone => HNone | VBool b => HBool b | VNum f t => HNum f t | VInf b => HInf b
-    | VNaN i => HNaN i | VStr s => HStr s | VDate u => HDate u
+    | VNaN i => HNaN i | VStr s => HStr s | VDate u => HDate u | VFlt m e => HFlt m e
     | VTuple l => HTuple l (all l)
     | VList l => HList l (all l)
+    | VSeq c l => HSeq c l (all l)
     | VDict c items =>
         HDict c items
           ((fix go (l : list (string * val)) : Forall (fun kv => P (snd kv)) l :=
@@ -114,7 +117,7 @@ Qed.
 Lemma scalar_eqb_sym x y : scalar_eqb x y = scalar_eqb y x.
 Proof.
   destruct x, y; simpl; try reflexivity;
-    try apply Z.eqb_sym; try apply String.eqb_sym;
+    try apply Z.eqb_sym; try apply String.eqb_sym; try (unfold scalar_eqb; simpl; f_equal; apply Z.eqb_sym);
     repeat match goal with b : bool |- _ => destruct b end; reflexivity.
 Qed.
 
@@ -123,6 +126,7 @@ Proof.
   destruct x, y; simpl; try discriminate; destruct z; simpl; try discriminate; intros H1 H2;
     try (apply Z.eqb_eq in H1; apply Z.eqb_eq in H2; apply Z.eqb_eq; congruence);
     try (apply String.eqb_eq in H1; apply String.eqb_eq in H2; apply String.eqb_eq; congruence);
+    try (unfold scalar_eqb in *; simpl in *; apply andb_true_iff in H1 as [A1 B1]; apply andb_true_iff in H2 as [A2 B2]; apply Z.eqb_eq in A1, B1, A2, B2; subst; rewrite !Z.eqb_refl; reflexivity);
     repeat match goal with b : bool |- _ => destruct b end; simpl in *; try discriminate; reflexivity.
 Qed.
 
@@ -135,8 +139,10 @@ Proof.
   - destruct b; reflexivity.
   - apply String.eqb_refl.
   - apply Z.eqb_refl.
+  - unfold scalar_eqb. simpl. rewrite !Z.eqb_refl. reflexivity.
   - apply forall2b_refl; assumption.
   - apply forall2b_refl; assumption.
+  - rewrite N.eqb_refl. simpl. apply forall2b_refl; assumption.
   - rewrite N.eqb_refl. simpl. apply forall2b_refl.
     eapply Forall_impl; [|exact H]. simpl. intros kv Hkv. rewrite String.eqb_refl, Hkv. reflexivity.
   - rewrite shape_eqb_refl, (forall2b_refl _ _ H). simpl. apply orb_true_r.
@@ -147,10 +153,11 @@ Qed.
 Lemma eq_core_sym x : forall y, eq_core x y = eq_core y x.
 Proof.
   induction x using val_ind'; intros y.
-  1-4,6-7: destruct y; simpl; try reflexivity; apply (scalar_eqb_sym _ _) || (symmetry; apply (scalar_eqb_sym _ _)) || idtac.
+  1-4,6-8: destruct y; simpl; try reflexivity; apply (scalar_eqb_sym _ _) || (symmetry; apply (scalar_eqb_sym _ _)) || idtac.
   all: try (destruct y; simpl; reflexivity).
   - (* tuple *) destruct y; simpl; try reflexivity. apply forall2b_sym. exact H.
   - destruct y; simpl; try reflexivity. apply forall2b_sym. exact H.
+  - (* subclass *) destruct y; simpl; try reflexivity. rewrite N.eqb_sym. f_equal. apply forall2b_sym. exact H.
   - (* dict *) destruct y; simpl; try reflexivity. rewrite N.eqb_sym. f_equal.
     apply forall2b_sym. eapply Forall_impl; [|exact H]. simpl. intros kv Hkv b.
     rewrite String.eqb_sym, Hkv. reflexivity.
@@ -171,13 +178,16 @@ Qed.
 Lemma eq_core_trans x : forall y z, eq_core x y = true -> eq_core y z = true -> eq_core x z = true.
 Proof.
   induction x using val_ind'; intros y z E1 E2.
-  1-4,6-7: destruct y; simpl in E1; try discriminate; destruct z; simpl in E2 |- *; try discriminate;
+  1-4,6-8: destruct y; simpl in E1; try discriminate; destruct z; simpl in E2 |- *; try discriminate;
     eapply scalar_eqb_trans; eassumption.
   - (* NaN *) destruct y; simpl in E1; try discriminate. destruct z; simpl in E2 |- *; try discriminate. reflexivity.
   - destruct y; simpl in E1; try discriminate. destruct z; simpl in E2 |- *; try discriminate.
     eapply forall2b_trans; eassumption.
   - destruct y; simpl in E1; try discriminate. destruct z; simpl in E2 |- *; try discriminate.
     eapply forall2b_trans; eassumption.
+  - (* subclass *) destruct y; simpl in E1; try discriminate. destruct z; simpl in E2 |- *; try discriminate.
+    apply andb_true_iff in E1 as [C1 E1]. apply andb_true_iff in E2 as [C2 E2].
+    apply N.eqb_eq in C1, C2. subst. rewrite N.eqb_refl. simpl. eapply forall2b_trans; eassumption.
   - (* dict *) destruct y; simpl in E1; try discriminate. destruct z; simpl in E2 |- *; try discriminate.
     apply andb_true_iff in E1 as [C1 E1]. apply andb_true_iff in E2 as [C2 E2].
     apply N.eqb_eq in C1, C2. subst. rewrite N.eqb_refl. simpl.
@@ -219,8 +229,10 @@ Proof.
   - destruct b; reflexivity.
   - apply String.eqb_refl.
   - apply Z.eqb_refl.
+  - unfold scalar_eqb. simpl. rewrite !Z.eqb_refl. reflexivity.
   - apply forall2b_map_r; assumption.
   - apply forall2b_map_r; assumption.
+  - rewrite N.eqb_refl. simpl. apply forall2b_map_r; assumption.
   - rewrite N.eqb_refl. simpl. apply (forall2b_map_r _ (fun kv => (fst kv, refresh f (snd kv)))).
     eapply Forall_impl; [|exact H]. simpl. intros kv Hkv. rewrite String.eqb_refl, Hkv. reflexivity.
   - rewrite shape_eqb_refl, (forall2b_map_r _ _ _ H). simpl. apply orb_true_r.
@@ -245,7 +257,7 @@ Proof. induction 1; simpl; congruence. Qed.
 Lemma norm_refresh f v : norm (refresh f v) = refresh f (norm v).
 Proof.
   induction v using val_ind'; simpl; try reflexivity.
-  1,2,4-6: rewrite ?map_map; f_equal; apply map_ext_Forall'; assumption.
+  1-3,5-7: rewrite ?map_map; f_equal; apply map_ext_Forall'; assumption.
   f_equal. rewrite map_map.
   rewrite <- (sort_map_snd (refresh f)). f_equal. rewrite map_map. simpl.
   apply map_ext_Forall'. eapply Forall_impl; [|exact H]. simpl. intros kv Hkv. rewrite Hkv. reflexivity.
@@ -260,8 +272,8 @@ Proof. destruct v; reflexivity. Qed.
 
 Lemma eq_core_kind x y : eq_core x y = true -> kind_of x = kind_of y.
 Proof.
-  destruct x, y; simpl; intros H; try discriminate; try reflexivity.
-  apply andb_true_iff in H as [H _]. apply N.eqb_eq in H. congruence.
+  destruct x, y; simpl; intros H; try discriminate; try reflexivity;
+    apply andb_true_iff in H as [H _]; apply N.eqb_eq in H; congruence.
 Qed.
 
 Theorem eq_model_kind x y : kind_of x <> kind_of y -> eq_model x y = false.
